@@ -174,6 +174,8 @@ func (e *w6Engine) demoted() bool {
 }
 
 type w6World struct {
+	slowWrite time.Duration // > 0: every write call takes this much simulated time
+	optEv *w6Event // event of an Append that never returned (blocked after the writer stopped)
 	r   *verifsim.Run
 	c   *verifsim.Choices
 	fs  *gofs.InMemoryFS
@@ -208,6 +210,9 @@ func (w *w6World) installHooks(fs *gofs.InMemoryFS) {
 		BeforeWrite: func(name string, off int64, b []byte) (int, error) {
 			if w.crashed {
 				return 0, errW6Dead
+			}
+			if w.slowWrite > 0 {
+				time.Sleep(w.slowWrite) // a slow disk: the writer goroutine is busy inside this write call
 			}
 			w.opCount++
 			if w.opCount == w.crashAtOp {
@@ -672,9 +677,134 @@ func (w *w6World) lifetime(life int, startOff int64, startMeta []byte, faulty bo
 			r.Fail("C18", "handover_early_master", "handover", "the successor became a ready master while its predecessor was still running")
 		}
 	}
-	r.Sched("shutdown", "client")
-	bl.RequestShutdown()
-	verifsim.Wait()
+	// appendNow issues one Append through the client goroutine and classifies the result
+	appendNow := func(tag string, n int, asap bool) (accepted, blocked bool) {
+		id := w.nextID
+		w.nextID++
+		body := w6Body(id, n)
+		off := w.nextOff
+		r.Sched("append", "client-"+tag)
+		reqCh <- appendReq{body, asap}
+		verifsim.Wait()
+		var res appendRes
+		got := false
+		step := time.Millisecond
+		if w.slowWrite > 0 {
+			step = w.slowWrite / 10 // back pressure lasts as long as the slow disk needs
+		}
+		for tries := 0; tries < 50 && !got; tries++ {
+			select {
+			case res = <-resCh:
+				got = true
+			default:
+				time.Sleep(step)
+				verifsim.Wait()
+			}
+		}
+		switch {
+		case !got:
+			// Observation, not a C18 clause: an Append that exceeds HardMemLimit waits on the writer's
+			// data channel, and a writer that takes the stop signal instead never receives from it, so the
+			// call blocks forever. Its event got no offset from the writer: it is in flight, the final
+			// flush may or may not have written it (whole if at all), and the lineage ends here.
+			r.Probe("append_during_shutdown_blocked_forever")
+			r.Event("client", "append (%s) id=%d len=%d at=%d blocked on back pressure", tag, id, n, off)
+			w.optEv = &w6Event{id: id, off: off, end: off + int64(AddPadding(len(body))), length: n}
+			w.nextOff = 0 // how far the writer got with the in-flight event is unknown: no append bound for commits
+			return false, true
+		case res.err != nil && strings.HasPrefix(res.err.Error(), "PANIC"):
+			r.Fail("C18", "append_panic", "append-panic", "Append(len=%d) at offset %d (%s) panicked: %v", n, off, tag, res.err)
+		case res.err != nil:
+			r.Probe("append_" + tag + "_refused")
+			r.Event("client", "append (%s) id=%d refused: %v", tag, id, errShort(res.err))
+		default:
+			r.Probe("append_" + tag + "_accepted")
+			w.model = append(w.model, w6Event{id: id, off: off, end: off + int64(AddPadding(len(body))), next: res.next, length: n})
+			w.nextOff = res.next
+			r.Event("client", "append (%s) id=%d len=%d at=%d next=%d", tag, id, n, off, res.next)
+			return true, false
+		}
+		return false, false
+	}
+	blockedForever := false
+	shutdownRequested := false
+	fb, _ := bl.(*fsBinlog)
+	// (An Append issued right after RequestShutdown without this preparation is not simulated: whether it
+	// is accepted depends on which of two ready select cases - pending data signal or stop - the writer's
+	// select takes, which is decided by the Go runtime and cannot be replayed.)
+	switch mode := c.Intn(2, "append_during_shutdown"); {
+	case succ != nil || runDone || fb == nil || w.faultFired != "":
+	case mode == 1:
+		// The same with the writer caught in the middle of its LAST flush. The disk is slow (every write
+		// call takes a simulated second). Event X keeps the writer busy; event A is put into the buffer and
+		// its appender is preempted before it signals the writer (the harness takes the signal back out of
+		// the channel, and returns it later as the appender would have sent it); shutdown is requested; the
+		// writer comes back, finds only the stop request, takes A as its last batch and is busy writing it
+		// when one more Append arrives: refused is fine, accepted means appended.
+		// First the scenario is aligned with the writer's 500 ms flush timer (a timer that fires while the
+		// writer is busy would be ready together with the stop request, and which of two ready cases a select
+		// takes is the Go runtime's coin, not the simulator's): a plain append makes the file dirty, the next
+		// commit notification then marks the instant the timer fired and was re-armed, and everything below
+		// takes a few simulated milliseconds.
+		n0 := len(eng.commits)
+		okX, bX := appendNow("before_shutdown", c.Intn(300, "len"), false)
+		aligned := false
+		for i := 0; okX && i < 700 && !aligned && !runDone; i++ {
+			time.Sleep(time.Millisecond)
+			verifsim.Wait()
+			aligned = len(eng.commits) > n0
+		}
+		okA, bA := false, false
+		drained := false
+		if aligned && !r.Failed() {
+			w.slowWrite = 2 * time.Millisecond
+			okX, bX = appendNow("before_shutdown", c.Intn(300, "len"), false)
+			if okX && !r.Failed() {
+				okA, bA = appendNow("before_shutdown", c.Intn(300, "len"), c.Intn(2, "asap") == 1)
+			}
+		}
+		blockedForever = bX || bA
+		if okA {
+			select {
+			case <-fb.writer.dataCh:
+				drained = true
+			default:
+			}
+		}
+		r.Sched("shutdown", "client")
+		bl.RequestShutdown()
+		shutdownRequested = true
+		verifsim.Wait()
+		if drained && !r.Failed() {
+			inLast := false
+			for i := 0; i < 100 && !inLast && !runDone; i++ {
+				time.Sleep(time.Millisecond)
+				verifsim.Wait()
+				fb.buffEx.mu.Lock()
+				inLast = fb.buffEx.getSizeUnsafe() == 0
+				fb.buffEx.mu.Unlock()
+			}
+			if inLast && !runDone {
+				r.Probe("append_lands_in_last_flush")
+				_, bB := appendNow("in_last_flush", c.Intn(300, "len"), c.Intn(2, "asap") == 1)
+				blockedForever = blockedForever || bB
+			}
+			select {
+			case fb.writer.dataCh <- struct{}{}: // the preempted appender of A resumes
+			default:
+			}
+		}
+		w.slowWrite = 0
+		for i := 0; i < 100 && !runDone; i++ {
+			time.Sleep(100 * time.Millisecond)
+			verifsim.Wait()
+		}
+	}
+	if !shutdownRequested {
+		r.Sched("shutdown", "client")
+		bl.RequestShutdown()
+		verifsim.Wait()
+	}
 	if !runDone {
 		time.Sleep(time.Second)
 		verifsim.Wait()
@@ -693,6 +823,13 @@ func (w *w6World) lifetime(life int, startOff int64, startMeta []byte, faulty bo
 		return w.afterCrash(w.fs.SimSnapshot(), "ioerror-in-shutdown")
 	}
 	w.checkCommits(eng, &commitsSeen)
+	if blockedForever {
+		if _, err := w.verifyReplay(w.fs, "shutdown-with-blocked-append", 0, nil, len(w.model), false, false); err == nil && w.optEv == nil {
+			r.Probe("blocked_append_was_written")
+		}
+		w.optEv = nil
+		return false
+	}
 	// clean shutdown flushes and syncs everything: all appended events are durable
 	if dp, err := w.durablePrefix(); err == nil && dp < w.nextOff && runErr == nil {
 		r.Fail("C18", "shutdown_not_durable", "shutdown", "after clean shutdown only %d of %d bytes are durable", dp, w.nextOff)
@@ -763,6 +900,11 @@ func (w *w6World) checkApplied(eng *w6Engine, startOff int64, wantCount int, wha
 		if w.cmpLimit > 0 && (mi >= len(w.model) || w.model[mi].end > w.cmpLimit) {
 			r.Probe("events_in_damaged_region_not_compared")
 			return
+		}
+		if mi == len(w.model) && w.optEv != nil && a.good && a.off == w.optEv.off && (a.id == w.optEv.id || w.optEv.length < 4) && a.n == w.optEv.length {
+			w.model = append(w.model, *w.optEv) // the in-flight append of a blocked client was written
+			w.optEv = nil
+			continue
 		}
 		if mi >= len(w.model) {
 			r.Fail("C18", "replay_extra_event", what, "%s: engine got event #%d (id=%d off=%d) beyond the %d appended events", what, i, a.id, a.off, len(w.model))
